@@ -1126,6 +1126,12 @@ func main() {
 			}
 		}
 	}
+	// rings that list a vertex several times in a row, against all their rotations and reversals
+	// (repeated.go); own id space so that the cases above keep their ids
+	for i := 0; i < (a.N*4+99)/100; i++ {
+		r := root.Fork()
+		genRepeatedRings(r, geom.CoordinatesType(r.Intn(4)), fmt.Sprintf("rr%d", i), emit)
+	}
 	stats := map[string]interface{}{"classes": classes, "expectations": expects, "kinds": st.Kinds, "ctypes": st.CTs,
 		"float_classes": st.FloatCls, "float_class_names": lib.FloatClassNames,
 		"lines_total": ringLines, "lines_that_are_rings": ringsSeen, "magnitudes": magnitudes}
